@@ -37,4 +37,22 @@ def h_params_NewExecutionGraphForRetry : Nat := 0x859d7c2a46d2316d
 /-- hash of the normalised skeleton of setupExec (internal/dag/scheduler/node.go) -/
 def h_params_nodeSetupExec : Nat := 0xcfa69c496e6e333d
 
+/-- hash of the normalised skeleton of * (internal/dag/parser.go) -/
+def h_rest_params_dag_parser_go : Nat := 0xfed53ef7b66dc18d
+
+/-- hash of the normalised skeleton of * (internal/persistence/model/status.go) -/
+def h_rest_params_persistence_model_status_go : Nat := 0xbc8e5d3265b85b24
+
+/-- hash of the normalised skeleton of * (cmd/start.go) -/
+def h_rest_params_cmd_start_go : Nat := 0x2e014ea9d86ba5cc
+
+/-- hash of the normalised skeleton of * (cmd/retry.go) -/
+def h_rest_params_cmd_retry_go : Nat := 0x6b2856f491b7ee72
+
+/-- hash of the normalised skeleton of * (cmd/restart.go) -/
+def h_rest_params_cmd_restart_go : Nat := 0x00f3f7576f81cca1
+
+/-- hash of the normalised skeleton of * (internal/dag/scheduler/node.go) -/
+def h_rest_params_dag_scheduler_node_go : Nat := 0x73005fa231f869e6
+
 end BdModel.Canon.Params
